@@ -594,7 +594,6 @@ pub fn run(ctx: &Ctx) -> EngineResult {
         (0..PROGRAMS.len()).flat_map(|v| scripts(ctx.tier).into_iter().map(move |s| (v, s))).collect();
     let budget = ctx.tier.pick(45.0, 850.0);
     let deadline = Instant::now() + Duration::from_secs_f64(budget);
-    let bound = ctx.tier.pick(1usize, 2usize);
     let mut total_sched = 0u64;
     let mut total_steps = 0u64;
     let mut scripts_done = 0u64;
@@ -607,7 +606,21 @@ pub fn run(ctx: &Ctx) -> EngineResult {
     // run scripts concurrently: each exploration uses a slice of the worker processes
     let lanes = 4usize;
     let per_lane = (ctx.threads / lanes).max(1);
-    let results = crate::par::par_map(&all, lanes, 1 << 20, Some(deadline), |_, (variant, script)| {
+    // phases (scripts, deviation bound): quick = everything at bound 1. Thorough = the short and
+    // curated scripts at bound 2 first, then every script at bound 1, then the long scripts at
+    // bound 2 as far as the wall budget goes; each phase reports what it completed.
+    let short: Vec<(usize, Vec<String>)> = (0..PROGRAMS.len()).flat_map(|v| scripts(Tier::Quick).into_iter().map(move |s| (v, s))).collect();
+    let long: Vec<(usize, Vec<String>)> = all.iter().filter(|x| !short.contains(x)).cloned().collect();
+    let phases: Vec<(&str, Vec<(usize, Vec<String>)>, usize)> = match ctx.tier {
+        Tier::Quick => vec![("all scripts", all.clone(), 1)],
+        Tier::Thorough => vec![("short and curated scripts", short.clone(), 2), ("all scripts", all.clone(), 1), ("long scripts", long, 2)],
+    };
+    let mut phase_report = Vec::new();
+    for (phase_name, phase_scripts, bound) in &phases {
+    let bound = *bound;
+    let all = phase_scripts;
+    let mut phase_done = 0u64;
+    let results = crate::par::par_map(all, lanes, 1 << 20, Some(deadline), |_, (variant, script)| {
         let reference = &references[*variant];
         let cfg = pool(per_lane, Some(deadline));
         let scenario = json!({"script": script, "variant": variant, "ref_seq": reference["seq"]});
@@ -671,6 +684,7 @@ pub fn run(ctx: &Ctx) -> EngineResult {
             scripts_capped += 1;
         } else {
             scripts_done += 1;
+            phase_done += 1;
         }
         if st.horizon_hits > 0 {
             rep.cap(format!("script {:?}: {} executions hit the step horizon", script, st.horizon_hits));
@@ -681,9 +695,13 @@ pub fn run(ctx: &Ctx) -> EngineResult {
             }
         }
     }
-    if scripts_capped > 0 {
-        rep.cap(format!("{scripts_capped} of {} scripts not fully explored to bound {bound} within the wall budget", all.len()));
+    phase_report.push(json!({"phase": phase_name, "scripts": all.len(), "deviation_bound": bound, "fully_explored": phase_done}));
+    if (phase_done as usize) < all.len() {
+        rep.cap(format!("phase '{phase_name}': {} of {} scripts not fully explored to bound {bound} within the wall budget", all.len() - phase_done as usize, all.len()));
     }
+    }
+    let bound = phases.iter().map(|p| p.2).max().unwrap_or(1);
+    rep.set("phases", json!(phase_report));
     if total_sched < 100 || stops_total == 0 || resumes == 0 || step_checks == 0 {
         return machinery(format!(
             "vacuous exploration: {total_sched} schedules, {stops_total} stops, {resumes} resumes while stopped, {step_checks} step checks"
@@ -693,8 +711,9 @@ pub fn run(ctx: &Ctx) -> EngineResult {
     rep.set("transitions", total_steps);
     rep.set("traces_validated_against_impl", total_sched);
     rep.set("schedules", total_sched);
-    rep.set("scripts", all.len() as u64);
+    rep.set("scripts", phases.iter().map(|p| p.1.len() as u64).max().unwrap_or(0));
     rep.set("scripts_fully_explored", scripts_done);
+    rep.set("script_explorations_capped", scripts_capped);
     rep.set("deviation_bound", bound as u64);
     rep.set("stops_observed", stops_total);
     rep.set("resumes_while_stopped", resumes);
